@@ -17,6 +17,11 @@ func init() { Registry["C09"] = c09 }
 
 // chanKey canonicalises a channel value: a struct field ("field:T.f"), or a local channel of function F
 // ("local:F:<render>"), resolving captured variables to the binding in the enclosing function.
+var (
+	curProg  *Program // the program under analysis (set by c09), for resolving parameters through call sites
+	libDepth int
+)
+
 // libraryOwnedChan: v is (a local copy of) a receive-only channel that a function outside the repository returned.
 func libraryOwnedChan(v ssa.Value) bool {
 	for i := 0; i < 6; i++ {
@@ -61,6 +66,28 @@ func libraryOwnedChan(v ssa.Value) bool {
 		case *ssa.ChangeType:
 			v = x.X
 			continue
+		case *ssa.Parameter:
+			// a channel handed to the function that ranges over it (go s.serveSession(channel, requests)): what every call site passes
+			if curProg == nil || libDepth > 2 {
+				return false
+			}
+			idx := paramIdx(x)
+			n := 0
+			for _, g := range curProg.Funcs() {
+				for _, cl := range Calls(g) {
+					if cl.Common().StaticCallee() != x.Parent() || cl.Common().IsInvoke() {
+						continue
+					}
+					n++
+					libDepth++
+					ok := idx >= 0 && idx < len(cl.Common().Args) && libraryOwnedChan(cl.Common().Args[idx])
+					libDepth--
+					if !ok {
+						return false
+					}
+				}
+			}
+			return n > 0
 		case *ssa.Extract:
 			call, ok := x.Tuple.(*ssa.Call)
 			if !ok {
@@ -137,6 +164,7 @@ func chanKey(v ssa.Value) string {
 }
 
 func c09(c *Ctx) {
+	curProg = c.P
 	p := c.P
 	c.Explanation = "Static checks of the release mechanisms (bounded time itself is a run-time quantity and is NOT decided): (1) every goroutine started in the call-graph reach of a listed service's Handle has a reachable return; when its only ways out are the closed/“done” arm of a receive, " +
 		"range or select on a channel, a close() of that same channel object exists in the handler's own code (deferred or after the serve loop) and the channel is per-connection; (2) every in-repo net.Conn implementation's Read can return a non-nil error (own error value or delegation to another Read) – " +
